@@ -37,7 +37,10 @@ def asref_types():
 #[derive(Debug, PartialEq)] pub struct G{i}(pub u8);
 #[derive(Debug)] pub struct F{i} {{ pub g: G{i}, pub other: Option<Box<F{i}>> }}
 pub type A{i} = F{i};
-impl F{i} {{ pub fn new(v: u8) -> F{i} {{ F{i} {{ g: G{i}(v), other: Some(Box::new(F{i} {{ g: G{i}(v + 100), other: None }})) }} }} }}
+impl F{i} {{ pub fn new(v: u8) -> F{i} {{ F{i} {{ g: G{i}(v), other: Some(Box::new(F{i} {{ g: G{i}(v + 100), other: None }})) }} }}
+    // inherent methods named like the trait methods: method-call syntax in an expansion would reach these (a third object)
+    pub fn as_ref(&self) -> &G{i} {{ &self.other.as_deref().unwrap().g }}
+    pub fn as_mut(&mut self) -> &mut G{i} {{ &mut self.other.as_deref_mut().unwrap().g }} }}
 impl AsRef<F{i}> for F{i} {{ fn as_ref(&self) -> &F{i} {{ self.other.as_deref().unwrap() }} }}
 impl AsMut<F{i}> for F{i} {{ fn as_mut(&mut self) -> &mut F{i} {{ self.other.as_deref_mut().unwrap() }} }}
 impl AsRef<G{i}> for F{i} {{ fn as_ref(&self) -> &G{i} {{ &self.g }} }}
@@ -123,20 +126,27 @@ def legacy_modules(c, named):
                         f"\n    report({json.dumps(k)}, &rows); }}", ["index true true", "index_mut true true"]))
     # ---------- IntoIterator (owned, ref, ref_mut forms; no forward mark)
     if "fwd" not in fs and sattr == "none":
-        marks = {"sel": "#[into_iterator(owned, ref, ref_mut)]", "ign": "#[into_iterator(ignore)]"}
-        st = "#[into_iterator(owned, ref, ref_mut)]\n" if "sel" not in fs else ""
-        decl, init = legacy_struct(c, "into_iterator", named, marks, st, derives="derive_more::IntoIterator")
-        k = key_of(c, "into_iterator", named)
-        if doc[0] == "error":
-            rej.append((k, "use super::*;\n" + decl))
-        else:
-            i = doc[1][0] - 1
-            f = member(i, named)
-            rows = [f'rows.push(format!("iter_owned {{}}", s.clone().into_iter().collect::<Vec<u8>>() == s.{f}.clone().into_iter().collect::<Vec<u8>>()));',
-                    f'rows.push(format!("iter_ref {{}}", (&s).into_iter().map(|x| ad(x)).collect::<Vec<_>>() == (&s.{f}).into_iter().map(|x| ad(x)).collect::<Vec<_>>()));',
-                    f'{{ let mut m = s.clone(); for x in &mut m {{ *x += 1; }} rows.push(format!("iter_mut {{}}", m.{f} == s.{f}.iter().map(|x| x + 1).collect::<Vec<u8>>())); }}']
-            out.append((k, f"use super::*;\n{decl}\npub fn run() {{ let s = {init}; let mut rows: Vec<String> = vec![];\n    " + "\n    ".join(rows) +
-                        f"\n    report({json.dumps(k)}, &rows); }}", ["iter_owned true", "iter_ref true", "iter_mut true"]))
+        # every non-empty set of listed reference forms (struct-level when no field is marked, else on the marked field)
+        FORMSETS = [["owned", "ref", "ref_mut"], ["owned"], ["ref"], ["ref_mut"], ["owned", "ref"], ["owned", "ref_mut"], ["ref", "ref_mut"]]
+        k0 = key_of(c, "into_iterator", named)
+        for forms in FORMSETS:
+            ftxt = ", ".join(forms)
+            marks = {"sel": f"#[into_iterator({ftxt})]", "ign": "#[into_iterator(ignore)]"}
+            st = f"#[into_iterator({ftxt})]\n" if "sel" not in fs else ""
+            decl, init = legacy_struct(c, "into_iterator", named, marks, st, derives="derive_more::IntoIterator")
+            k = k0 + "|forms:" + "+".join(forms)
+            if doc[0] == "error":
+                rej.append((k, "use super::*;\n" + decl))
+            else:
+                i = doc[1][0] - 1
+                f = member(i, named)
+                rows = [f'rows.push(format!("iter_owned {{}}", s.clone().into_iter().collect::<Vec<u8>>() == s.{f}.clone().into_iter().collect::<Vec<u8>>()));',
+                        f'rows.push(format!("iter_ref {{}}", (&s).into_iter().map(|x| ad(x)).collect::<Vec<_>>() == (&s.{f}).into_iter().map(|x| ad(x)).collect::<Vec<_>>()));',
+                        f'{{ let mut m = s.clone(); for x in &mut m {{ *x += 1; }} rows.push(format!("iter_mut {{}}", m.{f} == s.{f}.iter().map(|x| x + 1).collect::<Vec<u8>>())); }}']
+                want = {"owned": "iter_owned true", "ref": "iter_ref true", "ref_mut": "iter_mut true"}
+                rows = [r for r, f_ in zip(rows, ("owned", "ref", "ref_mut")) if f_ in forms]
+                out.append((k, f"use super::*;\n{decl}\npub fn run() {{ let s = {init}; let mut rows: Vec<String> = vec![];\n    " + "\n    ".join(rows) +
+                            f"\n    report({json.dumps(k)}, &rows); }}", [want[f_] for f_ in ("owned", "ref", "ref_mut") if f_ in forms]))
     return out, rej
 
 
